@@ -199,6 +199,14 @@ def tolerate_hash_order(case, res, cl):
     return cl
 
 
+def strip_nulls(x):
+    if isinstance(x, dict):
+        return {k: strip_nulls(v) for k, v in x.items() if v is not None}
+    if isinstance(x, list):
+        return [strip_nulls(v) for v in x if v is not None]
+    return x
+
+
 class ExecRun:
     """accumulates batches of executed+validated cases for one property check"""
 
@@ -222,6 +230,7 @@ class ExecRun:
         return cases, results
 
     def add_cases(self, name, items, layout_seed=None):
+        items = [strip_nulls(x) for x in items]     # TLC's Json module cannot read null
         d = C.workdir(name)
         raw = os.path.join(d, "raw.ndjson")
         C.write_ndjson(raw, items)
